@@ -86,6 +86,15 @@ ObsApply(s, c) ==
 
 ObsAllowed(s, c) == IF c.op = "changed" THEN AllowedAfterChange(s, c.p, c.mid, c.con) ELSE { ObsApply(s, c) }
 
+(* ---- what of an observer's record can be observed ------------------------ *)
+\* The pending message id only ever decides whether an acknowledgement resets the unacknowledged
+\* count; while that count is 0 a reset changes nothing, and every notification round overwrites the
+\* id.  So the id of an observer whose count is 0 cannot be told through any later operation: model
+\* and implementation are compared on ObsView, not on the raw record (a stale or an absent id at
+\* count 0 are the same observer).
+ObsView(o) == IF o.unacked = 0 THEN [o EXCEPT !.mid = NoMid] ELSE o
+ViewSeq(q) == [i \in 1 .. Len(q) |-> ObsView(q[i])]
+
 (* ---- properties (C14, C15) as predicates on states and steps ------------- *)
 OneObserverPerEndpoint(s) ==
   \A p \in DOMAIN s.res : \A i, j \in 1 .. Len(s.res[p].obs) :
